@@ -2,7 +2,8 @@
 """Copy the confirmed seeded changes (produced by sub-agents in scratch worktrees and re-validated by
 tools/validate_seed.sh) into /verif/seeded/<PROP>_<n>/ with a meta.json."""
 import os, re, json, shutil, subprocess, sys
-SRC = '/tmp/seeded_out'; VAL = '/tmp/val'; DST = '/verif/seeded'
+SRC = sys.argv[1] if len(sys.argv) > 1 else '/tmp/seeded_out'; VAL = sys.argv[2] if len(sys.argv) > 2 else '/tmp/val'; DST = '/verif/seeded'
+OFFSET = int(sys.argv[3]) if len(sys.argv) > 3 else 0
 head = subprocess.run(['git', '-C', '/repo', 'rev-parse', '--short', 'HEAD'], capture_output=True, text=True).stdout.strip()
 for P in sorted(os.listdir(SRC)):
     for n in sorted(os.listdir(os.path.join(SRC, P))):
@@ -11,7 +12,7 @@ for P in sorted(os.listdir(SRC)):
         r = open(res).read().strip()
         if "191 passed" not in r or 'demo_with=1 demo_without=0' not in r:
             print('skip', P, n, r); continue
-        dst = os.path.join(DST, '%s_%s' % (P, n)); os.makedirs(dst, exist_ok=True)
+        dst = os.path.join(DST, '%s_%d' % (P, int(n) + OFFSET)); os.makedirs(dst, exist_ok=True)
         ad = os.path.join(VAL, '%s_%s.applied.diff' % (P, n))
         shutil.copy(ad if os.path.getsize(ad) > 0 else os.path.join(src, 'patch.diff'), os.path.join(dst, 'patch.diff'))
         shutil.copy(os.path.join(src, 'demo.py'), os.path.join(dst, 'demo.py'))
